@@ -87,6 +87,7 @@ func TestConcurrentHistories(t *testing.T) {
 	nh := vh.EnvInt("VERIF_TRACES", 50)
 	httpMode := os.Getenv("VERIF_MODE") == "http"
 	condMix := os.Getenv("VERIF_OPMIX") == "cond"
+	aclMix := os.Getenv("VERIF_OPMIX") == "acl"
 	realFile := os.Getenv("VERIF_AUDITFILE") != "" // audit.NewFile on a real file; records read back afterwards
 	d := NewDict(0)
 	d.sigma = map[rune]rune{}
@@ -117,6 +118,7 @@ func TestConcurrentHistories(t *testing.T) {
 		if err != nil {
 			t.Fatal(err)
 		}
+		sys.ParkWrites = httpMode
 		log := &evlog{}
 		var auditPath string
 		if realFile {
@@ -150,12 +152,24 @@ func TestConcurrentHistories(t *testing.T) {
 			calls []Call
 		}
 		restricted := []RuleJ{{Action: []string{"get", "info"}, Secret: [][]int{vh.Runes("a")}}}
+		// C01: callers with partial or no grants racing fully authorized ones (an overlapping authorized request must
+		// never lend its verdict to an unauthorized one)
+		partial := [][]RuleJ{
+			restricted,
+			{},
+			{{Action: []string{"put", "activate"}, Secret: [][]int{vh.Runes("prod/*")}}},
+			{{Action: []string{"info"}, Secret: [][]int{vh.Runes("*")}}},
+			{{Action: []string{"delete"}, Secret: [][]int{vh.Runes("a")}}, {Action: []string{"get"}, Secret: [][]int{vh.Runes("prod/k")}}},
+		}
 		var plans []plan
 		for ci := 0; ci < nc; ci++ {
 			p := plan{cl: clients[ci]}
 			rules := suRules
 			if ci == nc-1 && r.Intn(3) == 0 {
 				rules = restricted
+			}
+			if aclMix && (ci > 0 || r.Intn(3) == 0) {
+				rules = partial[r.Intn(len(partial))]
 			}
 			for k := 0; k < ncalls; k++ {
 				c := Call{Who: p.cl, Rules: rules, Name: shared[r.Intn(len(shared))], Val: "Nil", Fault: "none"}
